@@ -1,10 +1,12 @@
 pub mod peersync;
+pub mod sampling;
 
 use std::collections::HashMap;
 
 pub fn run(driver: &str, kv: &HashMap<String, String>) -> i32 {
     match driver {
         "peersync" => peersync::run(kv),
+        "sampling" => sampling::run(kv),
         "mine-genesis" => mine_genesis(),
         _ => {
             eprintln!("unknown driver {}", driver);
